@@ -13,8 +13,7 @@ Model of the Rust code behind property C18 (import-free).
                              + src/nodes/block.rs `mutate_first_token` / `mutate_last_token`
 
 The model mirrors the code as it is (after the fix of F20/F21: the long-comment form is also used for a
-text containing CR or starting with a long-bracket opener), including the line shift that is applied
-for location `end` as well as for `start` (F25).
+text containing CR or starting with a long-bracket opener), and, after the fix of F25, the line shift applied for location `start` only.
 -/
 namespace DarkluaModel.C18
 
@@ -189,12 +188,16 @@ def attachComment (loc : AppendLocation) (text : Bytes) (f : File) : File :=
     | .start => { f with tokens := mapHead (appendComment loc text) f.tokens }
     | .end => { f with tokens := mapLast (appendComment loc text) f.tokens }
 
-/-- `AppendTextComment::process`: nothing for an empty text; otherwise shift every token by
-`text.lines().count()` (whatever the location), then attach the comment. -/
+/-- `AppendTextComment::process`: nothing for an empty text; for location `start` shift every token by
+`text.lines().count()` and attach the comment to the first token; for `end` attach it to the last
+token (no shift: nothing moves). -/
 def appendTextComment (loc : AppendLocation) (content : Bytes) (f : File) : File :=
   let text := commentText content
   if text.isEmpty then f
-  else attachComment loc text (f.mapTokens (Token.shiftTokenLine (linesCount text)))
+  else
+    match loc with
+    | .start => attachComment .start text (f.mapTokens (Token.shiftTokenLine (linesCount text)))
+    | .end => attachComment .end text f
 
 /-! ### the AST as `impl_token_fns!` sees it (src/nodes/mod.rs)
 
